@@ -43,6 +43,8 @@ def gen_cases(ctx):
             yield dict(part='failure', beh=case['beh'], place=case['place'])
     # --- dispatcher twins on middleware / handler stacks
     for case in c12.gen_cases(ctx):
+        if ctx.quick and len(case['stack']) > 2:
+            continue          # quick: stacks of <= 2 middlewares in the twin comparison (C12 itself goes to 4)
         if case['disp'] == 'sync':
             yield dict(part='stack', stack=case['stack'], table=case['table'], request=case['request'])
     # --- client twins
@@ -53,6 +55,8 @@ def gen_cases(ctx):
         if case.get('kind') == 'sync':
             yield dict(part='tracer', cfg=case)
     for case in c08.gen_cases(ctx):
+        if ctx.quick and case.get('part') == 'batch' and case.get('n', 0) >= 3 and len(case.get('entries', ())) >= 3 and 'junk' not in case:
+            continue          # quick: the largest response arrays are left to C08 itself
         if case.get('kind') == 'sync':
             yield dict(part='match', case=case)
     for first in ('add', 'notify', 'getitem'):
@@ -63,6 +67,9 @@ def gen_cases(ctx):
     for case in c07.gen_cases(ctx):
         if tuple(case['pair']) == ('sync', 'sync') and case['idgen'] in ('sequential', 'randint12'):
             yield dict(part='notation', case=case)
+    for how in ('call', 'notify', 'send', 'batch'):
+        for dumper in (False, True):
+            yield dict(part='encoder', how=how, dumper=dumper)
     # --- the concrete client backends (requests / httpx sync = synchronous half, httpx async / aiohttp = asynchronous half)
     for kind in BK_KINDS:
         for status in BK_STATUS:
@@ -205,6 +212,60 @@ def run_notation(case, rec):
         rec.violation('C11:client:call notations behave differently in the sync and the async client', case, expected=dict(sync=out[0]), observed={'async': out[1]})
     rec.outcomes['notation twins agree'] += 1
     return repr(out[0])[:80]
+
+
+def run_encoder(case, rec):
+    """a configured json_encoder that serialises the request objects ITSELF (adds a member) and a configured json_dumper: both
+    halves must hand them the same thing - the request object - so the documents on the wire are the same"""
+    import json as _json
+    import pjrpc
+    from pjrpc.common import BatchRequest, Request
+    from mc.harness.client import make_client
+    from mc.harness.client import run as drive
+    out = []
+    for kind in ('sync', 'async'):
+        seen_types = []
+
+        class AuthEncoder(pjrpc.JSONEncoder):
+            def default(self, o):
+                if isinstance(o, (Request, BatchRequest)):
+                    seen_types.append(type(o).__name__)
+                    d = o.to_json()
+                    if isinstance(d, dict):
+                        d['auth'] = 'token'
+                    return d
+                return super().default(o)
+
+        def dumper(obj, **kw):
+            seen_types.append('dumper:' + type(obj).__name__)
+            return _json.dumps(obj, **kw)
+
+        def responder(text, is_notif, kw):
+            doc = _json.loads(text)
+            if isinstance(doc, list):
+                res = [dict(jsonrpc='2.0', id=e['id'], result=1) for e in doc if 'id' in e]
+                return _json.dumps(res) if res else None
+            return _json.dumps(dict(jsonrpc='2.0', id=doc['id'], result=1)) if 'id' in doc else None
+        kw = dict(json_encoder=AuthEncoder)
+        if case['dumper']:
+            kw['json_dumper'] = dumper
+        client = make_client(kind, responder, **kw)
+        how = case['how']
+        if how == 'call':
+            r = drive(kind, lambda: client.call('m', 1))
+        elif how == 'notify':
+            r = drive(kind, lambda: client.notify('m', 1))
+        elif how == 'send':
+            r = drive(kind, lambda: client.send(Request('m', [1], id=5)))
+        else:
+            r = drive(kind, lambda: client.batch.add('a', 1).notify('b', 2).call())
+        rec.transitions += 1
+        out.append(([t for t, _, _ in client.sent], seen_types, r[0], repr(r[1]) if r[0] == 'ok' else type(r[1]).__name__))
+    if out[0] != out[1]:
+        field = ['request documents', 'what the configured encoder / dumper was given', 'outcome', 'result'][[i for i in range(4) if out[0][i] != out[1][i]][0]]
+        rec.violation('C11:client:%s differ between sync and async with a configured json_encoder / json_dumper' % field, case, expected=dict(sync=out[0]), observed={'async': out[1]})
+    rec.outcomes['encoder twins agree'] += 1
+    return repr(out[0])[:120]
 
 
 def run_reuse(case, rec):
@@ -410,6 +471,8 @@ def run_case(case, rec):
     p = case['part']
     if p == 'backend':
         obs = run_backend(case, r)
+    elif p == 'encoder':
+        obs = run_encoder(case, r)
     elif p == 'text':
         obs = run_text(case, r)
     elif p == 'failure':
@@ -440,7 +503,7 @@ def run(ctx):
                 'edges + token strings <= %d, C02 documents, C03 failure table) on Dispatcher / AsyncDispatcher with coroutines / '
                 'AsyncDispatcher with plain functions; C12 middleware x handler x request configurations; client: every leaf of the C09 '
                 'and C19 choice trees replayed on the async client with the same choices, every C08 response document, C07 notations. '
-                'state = one (input, configuration) pair of twins; every state is non-trivial (a comparison)' % ctx.pick(3, 4))
+                '(quick tier: C12 stacks of <= 2 middlewares and C08 response arrays of < 3 entries for 3 calls only.) state = one (input, configuration) pair of twins; every state is non-trivial (a comparison)' % ctx.pick(3, 4))
     ctx.assumptions += ['KeyboardInterrupt (sync) and CancelledError (async) stand for the same BaseException outcome']
     ctx.run_cases('C11', lambda: gen_cases(ctx), run_case, recheck_every=2003)
     c = ctx.rec.counters
